@@ -2,7 +2,7 @@
    Statements only; deciders' soundness is in Proofs/QMatProofs.v, the ring
    homomorphism K32 -> R in Proofs/CycloProofs.v.  Gen_NvDecomp is regenerated
    from the live NVSubroutineTranspiler on every run. *)
-From Coq Require Import ZArith List Bool String QArith.
+From Coq Require Import ZArith List Bool String QArith Ring_theory.
 From NQ Require Import Base.Cyclo Base.QMat Nv.NvSem Proofs.QMatProofs Proofs.CycloProofs
      Proofs.QMatLift Proofs.NvLift.
 From Gen Require Import Gen_NvDecomp.
@@ -76,6 +76,27 @@ Theorem C07_decomp_in_every_ring :
   forall r, In r gen_rows -> r_gate r <> VMov -> row_in_every_ring r.
 Proof. intros r Hin Hm. exact (row_spec_lifts r Hm (C07_decomp_equiv_row r Hin)). Qed.
 
+(* MOV rows in every ring with omega and a conjugation cj (ring endomorphism with
+   cj omega = omega^63, cj (1/2) = 1/2): the circuit computed in R maps psi (x) |0> to
+   phi0 (x) psi (4x2 matrix identity, one phi0 = (a, b) for every psi) and
+   cj a * a + cj b * b = 1 *)
+Theorem C07_mov_in_every_ring :
+  forall r, In r gen_rows -> r_gate r = VMov ->
+  forall (R : Type) (rO rI : R) (radd rmul rsub : R -> R -> R) (ropp : R -> R),
+    ring_theory rO rI radd rmul rsub ropp (@eq R) ->
+    forall (omega half : R),
+      opow R rI rmul omega 32 = ropp rI -> rmul (radd rI rI) half = rI ->
+      forall cj : R -> R,
+        cj rO = rO -> cj rI = rI -> (forall x y, cj (radd x y) = radd (cj x) (cj y)) ->
+        (forall x y, cj (rmul x y) = rmul (cj x) (cj y)) -> (forall x, cj (ropp x) = ropp (cj x)) ->
+        cj omega = opow R rI rmul omega 63 -> cj half = half ->
+        mov_transfers_in R rO rI radd rmul ropp omega half cj r.
+Proof.
+  intros r Hin Hm R rO rI radd rmul rsub ropp Rth omega half H32 H2 cj c0 c1 ca cm co cw ch.
+  exact (mov_row_lifts R rO rI radd rmul rsub ropp Rth omega half H32 H2 cj c0 c1 ca cm co cw ch
+           r Hm (C07_decomp_equiv_row r Hin)).
+Qed.
+
 (* non-vacuity: the table contains the 27-gate carbon-carbon CNOT, whose spec is
    I (x) CNOT on three wires, and an S row whose sequence is NOT S-dagger *)
 Example C07_nonvacuous :
@@ -93,3 +114,4 @@ Print Assumptions C07_rot_sim_passthrough.
 Print Assumptions C07_rot_hw_table.
 Print Assumptions C07_eval_hom.
 Print Assumptions C07_decomp_in_every_ring.
+Print Assumptions C07_mov_in_every_ring.
